@@ -103,11 +103,22 @@ def run(module, cfg_path, outdir, env=None, workers=16, xmx="8g", timeout=3600, 
     if env:
         e.update({k: str(v) for k, v in env.items()})
     t0 = time.time()
-    try:
-        p = subprocess.run(cmd, cwd=SPEC_DIR, env=e, capture_output=True, text=True, timeout=timeout)
-    except subprocess.TimeoutExpired as ex:
-        raise TLCError(f"TLC timed out after {timeout}s on {module}") from ex
-    out = p.stdout + p.stderr
+    for attempt in range(3):
+        try:
+            p = subprocess.run(cmd, cwd=SPEC_DIR, env=e, capture_output=True, text=True, timeout=timeout)
+        except subprocess.TimeoutExpired as ex:
+            raise TLCError(f"TLC timed out after {timeout}s on {module}") from ex
+        out = p.stdout + p.stderr
+        # the Export "invariants" only write a line to a file; a false one is a failed write (seen once under heavy
+        # load), never a property: start that generation again from an empty file
+        if "Invariant Export is violated" in out and env and env.get("OUT_FILE") and attempt < 2:
+            try:
+                os.remove(str(env["OUT_FILE"]))
+            except OSError:
+                pass
+            shutil.rmtree(os.path.join(outdir, "md"), ignore_errors=True)
+            continue
+        break
     st = parse_stats(out)
     st.update(stdout=out, wall_s=time.time() - t0, rc=p.returncode)
     shutil.rmtree(os.path.join(outdir, "md"), ignore_errors=True)
@@ -126,6 +137,7 @@ def run_shards(module, cfg_path, outdir, shard_envs, xmx="3g", timeout=3600, dfs
     t0 = time.time()
     pending = list(enumerate(shard_envs))
     running = []
+    retried = set()
     maxpar = int(os.environ.get("VERIF_JOBS", "16"))
 
     def start(i, env):
@@ -160,6 +172,16 @@ def run_shards(module, cfg_path, outdir, shard_envs, xmx="3g", timeout=3600, dfs
             st.update(stdout=out, rc=rc, shard=i)
             shutil.rmtree(os.path.join(sd, "md"), ignore_errors=True)
             shutil.rmtree(os.path.join(sd, "jtmp"), ignore_errors=True)
+            if (rc != 0 or st["error"]) and i not in retried:
+                # one more try for this shard from an empty verdict file (transient I/O failures under heavy load)
+                retried.add(i)
+                env_i = dict(shard_envs[i])
+                try:
+                    os.remove(str(env_i.get("OUT_FILE", "")))
+                except OSError:
+                    pass
+                still.append(start(i, env_i))
+                continue
             if rc != 0 or st["error"]:
                 for (_, q, _, _) in still + running:
                     try:
